@@ -42,10 +42,18 @@ impl Drop for QItem {
     #[allow(static_mut_refs)]
     fn drop(&mut self) {
         if self.0 != u64::MAX {
-            unsafe { QLIBDROPS.push((self.0, sim().seq)) };
+            if QUEUE_IS_BEING_DROPPED.load(std::sync::atomic::Ordering::Relaxed) {
+                unsafe { QDROPPED_WITH_QUEUE.push(self.0) };
+            } else {
+                unsafe { QLIBDROPS.push((self.0, sim().seq)) };
+            }
         }
     }
 }
+/// variant: instead of a final drain the queue object itself is dropped with elements left in it;
+/// it owns them, so it has to release each of them exactly once
+static QUEUE_IS_BEING_DROPPED: std::sync::atomic::AtomicBool = std::sync::atomic::AtomicBool::new(false);
+static mut QDROPPED_WITH_QUEUE: Vec<u64> = Vec::new();
 static mut SOFT: Vec<(String, String)> = Vec::new();
 
 /// Predicates 0-4 are pure functions of the element. 5 and 6 have a memory (a caller may pass
@@ -311,13 +319,27 @@ pub fn run(desc: &RunDesc) -> ! {
         let progs = progs.clone();
         specs.push(ThreadSpec { phase: t.phase, stack: 1 << 20, name: "q", body: Arc::new(move |tid| body(tid, q, &progs[i])) });
     }
-    // final drain by a thread running alone
+    // final drain by a thread running alone (or, in 30 % of the runs, the queue is dropped as it is)
+    let drop_queue = crate::rng::Rng::new(desc.seed ^ 0x9D).chance(0.3);
     let n = desc.threads.len();
     specs.push(ThreadSpec {
         phase: 9,
         stack: 1 << 20,
         name: "drain",
         body: Arc::new(move |tid| {
+            if drop_queue {
+                sim().probe("queue_dropped_with_elements_left");
+                QUEUE_IS_BEING_DROPPED.store(true, std::sync::atomic::Ordering::Relaxed);
+                // (leaked above only to get a 'static reference for the threads, which are done)
+                drop(unsafe { Box::from_raw(q as *const VQueue<QItem> as *mut VQueue<QItem>) });
+                QUEUE_IS_BEING_DROPPED.store(false, std::sync::atomic::Ordering::Relaxed);
+                for _ in 0..8 {
+                    let g = circ::cs();
+                    g.flush();
+                    drop(g);
+                }
+                return;
+            }
             let mut k = 0;
             loop {
                 sched::set_op(k);
@@ -373,8 +395,21 @@ pub fn run(desc: &RunDesc) -> ! {
             soft("popped-never-pushed", format!("element {:#x} was popped but never pushed", x));
         }
     }
+    #[allow(static_mut_refs)]
+    let with_queue: Vec<u64> = unsafe { QDROPPED_WITH_QUEUE.clone() };
+    if drop_queue {
+        for x in pushed.keys() {
+            let c = with_queue.iter().filter(|y| *y == x).count();
+            if !popped.contains_key(x) && c != 1 {
+                soft("element-not-released-once-with-queue", format!("element p{}.{} was still in the queue when the queue was dropped and its destructor ran {} times", x >> 16, x & 0xFFFF, c));
+            }
+            if popped.contains_key(x) && c != 0 {
+                soft("popped-twice", format!("element p{}.{} had been popped and was released again when the queue was dropped", x >> 16, x & 0xFFFF));
+            }
+        }
+    }
     for x in pushed.keys() {
-        if !popped.contains_key(x) {
+        if !popped.contains_key(x) && !drop_queue {
             soft("element-lost", format!("element p{}.{} was pushed but not popped by anyone, including the final drain", x >> 16, x & 0xFFFF));
         }
     }
